@@ -37,6 +37,11 @@ int redirect_parent(int *child, REPROC_STREAM stream)
     return errno == EBADF ? -EPIPE : -errno;
   }
 
+  // `fileno` does not notice that the file descriptor itself was closed.
+  if (fcntl(r, F_GETFD) < 0) {
+    return errno == EBADF ? -EPIPE : -errno;
+  }
+
   *child = r; // `r` contains the duplicated file descriptor.
 
   return 0;
